@@ -104,10 +104,10 @@ TRANSLATOR = ('translator /verif/translate (Go, go/parser only): closed statemen
               'anything else makes the method opaque and it must then be on the pinned irregular list; its output is validated on every run by decoding and re-encoding Go-produced bytes with the generated shapes')
 META['C11'] = {
   'generated_obligations': _gen_obl,
-  'rule': ('for each of the 117 exported wire types (types, consensus, rhp/v2, v3, v4) 60 (thorough 2500) random values by reflection (full-range integers, boundary and maximal currencies, empty/nil collections, all resolution kinds, random policies) plus the zero value: '
+  'rule': ('for each wire type (exported EncodeTo/DecodeFrom pairs of types, consensus, rhp/v2, v3, v4; the rhp/v4 RPC objects and the gateway request/response codecs through the verif hooks: 170+ codecs, regenerated list) 60 (thorough 2500) random values by reflection (full-range integers, boundary and maximal currencies, empty/nil collections, byte strings around and above the encoder's 1024-byte buffer, all resolution kinds, random policies incl. thresholds of 31-255 children) plus the zero value: '
            'Go decode(encode v) must re-encode to identical bytes, encoding must be deterministic, every proper prefix (all for short encodings, ~150 sampled for long) must fail to decode; '
-           'for the 98 types whose shape closure is regular (or recognised: V1Currency, V1SiafundOutput, SpendPolicy) the extracted model decodes the Go bytes with the *generated decoder shape* and re-encodes with the *generated encoder shape* and must reproduce the bytes, and must reject the same prefixes. '
-           'V2TransactionsMultiproof/V2BlockData/V2Block need proofs valid for one state and are covered by C18 instead'),
+           'for the types whose shape closure is regular (or recognised: V1Currency, V1SiafundOutput, SpendPolicy; about 150) the extracted model decodes the Go bytes with the *generated decoder shape* and re-encodes with the *generated encoder shape* and must reproduce the bytes, and must reject the same prefixes. '
+           'V2TransactionsMultiproof needs proofs valid for one state: generated on synthetic accumulators (round trip + model); consensus.State and ElementAccumulator (irregular layouts) have their encoded length recomputed by the model incl. the pre-genesis state'),
   'trusted_base': [KERNEL, EXTRACT, HARNESS, TRANSLATOR,
                    'Codec/Golden.v: the wire layout of the pinned tree (a golden transcription made from the implementation, regenerated by make_golden.sh only by hand)',
                    'coverage exceptions table in Codec/Oblig.v (fields documented as not transmitted or covered through a delegating conversion)'],
